@@ -10,8 +10,9 @@ names with the same equality pattern; symx forks on each comparison the real
 code makes (dict lookups in ModelParamDefinitions.store, ModelParams.store)
 and z3 prunes infeasible patterns.  Further selectors: number of declared /
 given names, load kind (string, string-with-file-name, file), provider
-(ImportURI search-path, ImportURI glob, GlobalRepo) and global repository
-on/off; the import closure is a fixed three-file graph with a cycle.
+(ImportURI search-path, ImportURI glob, GlobalRepo, two registered languages
+importing each other's files) and global repository on/off; the import closure
+is a fixed three-file graph with a cycle (two languages: A -> B -> A plus A).
 On every feasible path:
   * the load is rejected with TextXError 'unknown parameter'  iff  the path
     condition implies that some given name equals no declared name
@@ -41,7 +42,13 @@ FILES = {
     'a.m': 'import "sub/b.m" item a1 -> b1',
     'sub/b.m': 'import "../a.m" item b1 -> a1',
 }
-PROVIDERS = ['search-path', 'glob', 'global-repo-provider']
+PROVIDERS = ['search-path', 'glob', 'global-repo-provider', 'two-languages']
+FILES2 = {          # language A (*.qa) imports language B (*.qb), which imports language A again
+    'main.qa': 'import "mid.qb" import "same.qa" item m1 -> s1',
+    'mid.qb': 'import "leaf.qa" item b1',
+    'leaf.qa': 'item l1',
+    'same.qa': 'item s1',
+}
 KINDS = ['file', 'str-with-file-name', 'str']
 
 
@@ -71,8 +78,8 @@ class SymKey(str):
         return 0
 
 
-def write_files(tmp):
-    for fn, content in FILES.items():
+def write_files(tmp, files=None):
+    for fn, content in (files or FILES).items():
         p = os.path.join(tmp, fn)
         os.makedirs(os.path.dirname(p), exist_ok=True)
         with open(p, 'w') as f:
@@ -103,7 +110,8 @@ def explore(item):
     from textx.exceptions import TextXError
     import textx.scoping.providers as P
     tmp = tempfile.mkdtemp(prefix='c27_')
-    write_files(tmp)
+    two = PROVIDERS[pi] == 'two-languages'
+    write_files(tmp, FILES2 if two else None)
     ctx = Ctx(timeout_ms, max_paths=50000)
     D = [SymKey('d%d' % i) for i in range(2)]
     G = [SymKey('g%d' % i) for i in range(2)]
@@ -118,6 +126,16 @@ def explore(item):
             mm.register_scope_providers({'*.*': P.PlainNameImportURI(search_path=[])})
         elif prov == 'glob':
             mm.register_scope_providers({'*.*': P.FQNImportURI()})
+        elif prov == 'two-languages':
+            # the imported language declares no parameter of its own: parameters given to the
+            # load are validated by the loading metamodel only and travel through every import
+            import textx.registration as REG
+            mm.register_scope_providers({'*.*': P.PlainNameImportURI()})
+            mmb = metamodel_from_str(GRAMMAR, global_repository=global_repo)
+            mmb.register_scope_providers({'*.*': P.PlainNameImportURI()})
+            REG.clear_language_registrations()
+            REG.register_language(REG.LanguageDesc('c27qa', pattern='*.qa', description='', metamodel=mm))
+            REG.register_language(REG.LanguageDesc('c27qb', pattern='*.qb', description='', metamodel=mmb))
         else:
             mm.register_scope_providers({'*.*': P.PlainNameGlobalRepo(os.path.join(tmp, '**', '*.m'),
                                                                       glob_args={'recursive': True})})
@@ -129,12 +147,14 @@ def explore(item):
         declared, given = D[:nd], list(kw.keys())
         # accepted  <=>  every given name equals some declared name
         ok_formula = And(*[Or(*[g.t == d.t for d in declared]) for g in given])
-        main = os.path.join(tmp, 'main.m')
+        files = FILES2 if two else FILES
+        mainname = 'main.qa' if two else 'main.m'
+        main = os.path.join(tmp, mainname)
         try:
             if KINDS[ki] == 'file':
                 model = mm.model_from_file(main, **kw)
             elif KINDS[ki] == 'str-with-file-name':
-                model = mm.model_from_str(FILES['main.m'], file_name=main, **kw)
+                model = mm.model_from_str(files[mainname], file_name=main, **kw)
             else:
                 model = mm.model_from_str('item x item y -> x', **kw)
             outcome = 'accepted'
@@ -150,7 +170,7 @@ def explore(item):
                 return ('bad' if v == 'sat' else 'unknown', 'undeclared parameter accepted',
                         describe(c, D, G, nd, ng))
             models = closure(model)
-            want = 1 if KINDS[ki] == 'str' else 3
+            want = 1 if KINDS[ki] == 'str' else (4 if two else 3)
             if len(models) < want:
                 return ('harness', 'closure has %d models, expected %d' % (len(models), want), None)
             for m in models:
@@ -176,6 +196,9 @@ def explore(item):
     finally:
         import shutil
         shutil.rmtree(tmp, ignore_errors=True)
+        if two:
+            import textx.registration as REG
+            REG.clear_language_registrations()
     return {'provider': PROVIDERS[pi], 'kind': KINDS[ki], 'global_repo': global_repo, 'paths': ctx.paths,
             'queries': ctx.queries, 'solver_s': ctx.secs, 'truncated': ctx.truncated,
             'accepted': sum(1 for o in outs if o[0] == 'ok-accepted'),
@@ -205,14 +228,23 @@ def replay_concrete(pi, ki, global_repo, declared, given):
     import textx.scoping.providers as P
     import shutil
     tmp = tempfile.mkdtemp(prefix='c27r_')
+    two = PROVIDERS[pi] == 'two-languages'
     try:
-        write_files(tmp)
+        write_files(tmp, FILES2 if two else None)
         mm = metamodel_from_str(GRAMMAR, global_repository=global_repo)
         prov = PROVIDERS[pi]
         if prov == 'search-path':
             mm.register_scope_providers({'*.*': P.PlainNameImportURI(search_path=[])})
         elif prov == 'glob':
             mm.register_scope_providers({'*.*': P.FQNImportURI()})
+        elif two:
+            import textx.registration as REG
+            mm.register_scope_providers({'*.*': P.PlainNameImportURI()})
+            mmb = metamodel_from_str(GRAMMAR, global_repository=global_repo)
+            mmb.register_scope_providers({'*.*': P.PlainNameImportURI()})
+            REG.clear_language_registrations()
+            REG.register_language(REG.LanguageDesc('c27qa', pattern='*.qa', description='', metamodel=mm))
+            REG.register_language(REG.LanguageDesc('c27qb', pattern='*.qb', description='', metamodel=mmb))
         else:
             mm.register_scope_providers({'*.*': P.PlainNameGlobalRepo(os.path.join(tmp, '**', '*.m'),
                                                                       glob_args={'recursive': True})})
@@ -220,12 +252,13 @@ def replay_concrete(pi, ki, global_repo, declared, given):
             mm.model_param_defs.add(d, 'declared')
         kw = {g: v for g, v in zip(given, ['v0', ('v', 1)])}
         should_accept = all(g in declared for g in kw)
-        main = os.path.join(tmp, 'main.m')
+        mainname = 'main.qa' if two else 'main.m'
+        main = os.path.join(tmp, mainname)
         try:
             if KINDS[ki] == 'file':
                 model = mm.model_from_file(main, **kw)
             elif KINDS[ki] == 'str-with-file-name':
-                model = mm.model_from_str(FILES['main.m'], file_name=main, **kw)
+                model = mm.model_from_str((FILES2 if two else FILES)[mainname], file_name=main, **kw)
             else:
                 model = mm.model_from_str('item x item y -> x', **kw)
         except TextXError as e:
@@ -244,6 +277,9 @@ def replay_concrete(pi, ki, global_repo, declared, given):
         return False, 'parameters reach every model'
     finally:
         shutil.rmtree(tmp, ignore_errors=True)
+        if two:
+            import textx.registration as REG
+            REG.clear_language_registrations()
 
 
 def main():
@@ -262,10 +298,10 @@ def main():
         S.GlobalModelRepository.load_models_using_filepattern, S.GlobalModelRepository.load_model_using_search_path,
         P.ImportURI._load_referenced_models, P.GlobalRepo.load_models_in_model_repo)
     chk.cov['bounds'] = {'declared_names': '0..2', 'given_names': '0..2', 'providers': PROVIDERS, 'load_kinds': KINDS,
-                         'global_repository': [False, True], 'import_graph': 'main -> a -> sub/b -> a (cycle)'}
+                         'global_repository': [False, True], 'import_graph': 'main -> a -> sub/b -> a (cycle); two languages: main.qa -> mid.qb -> leaf.qa, main.qa -> same.qa'}
     chk.cov['stubs'] = ['parameter names are SymKey atoms (str subclass, constant hash, z3-decided equality)']
     chk.cov['outside_claim'] = ['more than two declared / given names', 'names equal to the built-in project_root',
-                                'other import graphs and providers', 'multi-metamodel imports']
+                                'other import graphs and providers', 'imported languages that declare parameters of their own']
     chk.assumptions = ['symbolic names differ from every concrete string in the definitions (project_root)',
                        'equality patterns enumerated exhaustively; acceptance compared with a z3 formula under '
                        'the path condition']
